@@ -100,7 +100,12 @@ func describe(b []byte) string {
 
 // ---------------------------------------------------------------- store wrapper
 
+// wrappers in front of the store through which Get is issued (registered by c04_hybrid.go, keyed by line kind)
+var stWrappers = map[string]func(s *stStore) func(id []byte) ([]byte, error){}
+
 type stStore struct {
+	getVia func(id []byte) ([]byte, error)
+	wrap   func(s *stStore) func(id []byte) ([]byte, error)
 	closed bool
 	dir    string
 	capMB  uint64
@@ -173,12 +178,22 @@ func (s *stStore) reopen() error {
 	if err != nil {
 		return err
 	}
+	n.wrap = s.wrap
+	if n.wrap != nil {
+		n.getVia = n.wrap(n)
+	}
 	*s = *n
 	return nil
 }
 
 func (s *stStore) get(id []byte) string {
-	b, err := s.cs.Get(nil, id)
+	var b []byte
+	var err error
+	if s.getVia != nil {
+		b, err = s.getVia(id)
+	} else {
+		b, err = s.cs.Get(nil, id)
+	}
 	if err != nil {
 		if errors.Is(err, storage.ErrContentNotFound) {
 			return "nf"
@@ -306,6 +321,10 @@ func stHistory(c *Ctx, kind string, capMB uint64, node [32]byte, ops []stOp) {
 			panic("open: " + err.Error())
 		}
 		s.pruned = false
+		if w, ok := stWrappers[kind]; ok {
+			s.wrap = w
+			s.getVia = w(s)
+		}
 		defer func() { s.close() }()
 		ids := idPool(ops)
 		for _, o := range ops {
@@ -656,7 +675,7 @@ func stExecLine(c *Ctx, ln string) {
 	}
 	atoi := func(s string) int { n, _ := strconv.Atoi(s); return n }
 	switch {
-	case f[0][0] == 'h' && len(f) == 4:
+	case (f[0][0] == 'h' || f[0] == "z04") && len(f) == 4:
 		var node [32]byte
 		copy(node[:], unhx(f[2]))
 		stHistory(c, f[0], uint64(atoi(f[1])), node, parseOps(f[3]))
@@ -733,6 +752,7 @@ func runStorage(c *Ctx, prop string) {
 			}
 		}
 		stXor(c, make([]byte, 32), make([]byte, 32))
+		stExtraGen(c, prop)
 		if thorough {
 			stRetain(c, 200000, 300, 50, 100000)
 		} else {
